@@ -235,7 +235,7 @@ def argtopk(a_plus_idx, k, axis, keepdims):
         a, idx = a_plus_idx
 
     if abs(k) >= a.shape[axis]:
-        return a_plus_idx
+        return a, idx
 
     idx2 = np.argpartition(a, -k, axis=axis)
     k_slice = slice(-k, None) if k > 0 else slice(-k)
